@@ -165,6 +165,11 @@ def _wallclock(ctx, n):
             'rnbqkbnr/pppppppp/8/8/8/8/PPPPPPPP/RNBQKBNR w KQkq - 0 1',
             'r4rk1/1pp1qppp/p1np1n2/2b1p1B1/2B1P1b1/P1NP1N2/1PP1QPPP/R4RK1 b - - 0 10',
             '8/2p5/3p4/KP5r/1R3p1k/8/4P1P1/8 w - - 0 1']
+    # positions whose capture trees run for minutes: the deadline must be honoured inside quiescence too (no depth-1 probe there:
+    # an unlimited depth-1 search does not come back)
+    heavy = ['1QqQqQq1/r6Q/Q6q/q6Q/B2q4/q6Q/k6K/1qQ1QqRb w - - 0 1', 'qqqqkqqq/qqqqqqqq/8/8/8/8/QQQQQQQQ/QQQQKQQQ w - - 0 1',
+             'rrqqkqrr/qqqqqqqq/8/8/8/8/QQQQQQQQ/RRQQKQRR b - - 0 1']
+    fens = fens + heavy[:2] if n <= 30 else fens + heavy
     margin = generated_const('antiflagMillis')
     e = uci.Engine()
     e.ready()
@@ -187,11 +192,14 @@ def _wallclock(ctx, n):
             e.send('position fen ' + fen)
             e.ready()
             # cost of the minimal depth-1 search here
-            t = time.time()
-            n0 = len(e.lines)
-            e.send('go depth 1')
-            e.read_until(lambda l: l.startswith('bestmove'), 20, start=n0)
-            d1 = time.time() - t
+            if fen in heavy:
+                d1 = 0.05
+            else:
+                t = time.time()
+                n0 = len(e.lines)
+                e.send('go depth 1')
+                e.read_until(lambda l: l.startswith('bestmove'), 20, start=n0)
+                d1 = time.time() - t
             n0 = len(e.lines)
             t = time.time()
             e.send(cmd)
@@ -531,7 +539,7 @@ def c02(ctx):
     qrows = [l.split('\t') for l in qout.strip().split('\n') if l]
     for r in qrows:
         if not r[0].startswith('ok'):
-            ctx.v.violation('position-not-restored-after-a-search', {'setup': r[1], 'searches': r[2] if len(r) > 2 else '', 'observation': r[0][4:],
+            ctx.v.violation('position-not-restored-after-a-search-or-evaluation', {'setup': r[1], 'searches': r[2] if len(r) > 2 else '', 'observation': r[0][4:],
                             'note': '`go infinite @d,k` / `#d,nd`: stop sent while the search thread is held after root move k of iteration d / after a move at node depth nd'},
                             signature=sig('c02q', r[1], r[2] if len(r) > 2 else ''))
             if len(ctx.v.violations) >= 5:
@@ -701,6 +709,16 @@ def c07(ctx):
         cmd = unhex(cases[i].split('\t')[1])
         ctx.v.violation('position-command-result-differs', {'command': 'position ' + cmd, 'engine': impl[i][:500], 'model': model[i][:500]},
                         signature=sig('c07', cmd[:200]))
+    # one move applied through the move-list path (ApplyUciMove) from ~600 base positions incl. the corner-capture templates:
+    # the position after it against the model (= the rules, C02)
+    scases7, sbad7, smoves7 = succ_stream(ctx, 's07')
+    for (fen, mv, what, a, b) in sbad7[:50]:
+        if what in ('snapshot', 'status', 'bookkeeping') and mv:
+            ei, mo = succ_detail(fen, mv)
+            ctx.v.violation('position-with-move-list-sets-up-a-different-position', {'start': fen, 'moves': mv, 'engine_snapshot': ei, 'rules_snapshot': mo,
+                            'how': '`position fen %s moves %s` then `tostr`' % (fen, mv)}, signature=sig('c07s', fen, mv))
+            if len(ctx.v.violations) >= 5:
+                break
     # move notation: every one of the 64*64*5 strings through the engine's own printer and parser
     rc, out, err, st2 = harness(['moves', 'm07'])
     mcases, mimpl = read_lines(RUN + '/m07.cases'), read_lines(RUN + '/m07.impl')
@@ -756,7 +774,8 @@ def c08(ctx):
     # rejection keeps the current position: through the command interpreter
     rc, out, err, st2 = harness(['fenkeep', 'fk08', str(300 if ctx.quick else 20000)])
     for l in read_lines(RUN + '/fk08.notes')[:5]:
-        ctx.v.violation('rejected-fen-changed-the-position', {'observation': l[:1500]}, signature=sig('c08k', l[:100]))
+        ctx.v.violation('fen-loading-depends-on-the-session' if 'after the history' in l else 'rejected-fen-changed-the-position',
+                        {'observation': l[:1500]}, signature=sig('c08k', l[:100]))
     acc = sum(1 for x in impl if x.startswith('OK'))
     return {'evaluations': len(cases) + int(st2.get('total', 0)), 'distinct_nontrivial': len(set(cases)),
             'rule': 'strings: valid FENs of playout/corpus/suite positions, all field variants, capacity and counter boundaries, one- and two-step mutations, random '
@@ -1086,6 +1105,29 @@ def c05(ctx):
                                 signature=sig('c05r', p['fen']))
         if len(ctx.v.violations) >= 5:
             break
+    # forced mates that need an UNDER-promotion inside the tree (the queen stalemates): `go depth 5` against the mate solver
+    under = ['8/8/1P6/8/8/8/5KPk/8 w - - 0 1', '8/8/6P1/8/8/8/kPK5/8 w - - 0 1', '8/5kpK/8/8/8/8/1p6/8 b - - 0 1', '8/Kpk5/8/8/8/8/6p1/8 b - - 0 1']
+    uo = run_oracle(['MMATE\t%s\t5' % f for f in under])
+    ujobs = [S.Job(f, 'go depth 5') for f in under]
+    S.run_jobs(ujobs, workers=4)
+    for f, o, j in zip(under, uo, ujobs):
+        if not o.startswith('MATE '):
+            continue
+        sol = int(o.split()[1])
+        exp = (abs(sol) + 1) // 2 * (1 if sol > 0 else -1)
+        par = uci.parse_search_output(j.lines or [])
+        its = S.impl_iterations(par)
+        checked += 1
+        if j.died or j.timeout or not its:
+            crash_violation(ctx, {'fen': f, 'job': j}, 'C05')
+            continue
+        kind, val, pv, nodes = its[max(its)]
+        mates_found += 1
+        nontrivial.add(f)
+        if kind != 'mate' or val != exp:
+            ctx.v.violation('forced-mate-not-reported-exactly', {'fen': f, 'go': 'go depth 5', 'solver_plies': sol, 'expected': 'mate %d' % exp,
+                            'engine_final': '%s %d' % (kind, val), 'engine_lines': j.lines[-3:], 'note': 'the mate needs a rook under-promotion (the queen promotion stalemates)'},
+                            signature=sig('c05u', f))
     # the move played keeps the mate: after it the opponent is mated in sol-1 plies
     keep = [(p['fen'], p['after']) for p in pos if 'after' in p]
     outs = run_oracle(['MMATEAFTER\t%s\t%s\t%d' % (f, bm, sol - 1) for f, (bm, sol) in keep])
@@ -1596,6 +1638,13 @@ def c17(ctx):
     shuffle = ' '.join(['g1f3 g8f6 f3g1 f6g8'] * 250)
     scripts.append(['position fen rnbqkbnr/pppppppp/8/8/8/8/PPPPPPPP/RNBQKBNR w KQkq - 0 15933 moves ' + shuffle, 'isready', 'go depth 2', 'perft 1', 'tperft 1', 'eval', 'isready'])
     scripts.append(['position fen rnbqkbnr/pppppppp/8/8/8/8/PPPPPPPP/RNBQKBNR w KQkq - 0 15900 moves ' + shuffle, 'go depth 1', 'perft 2', 'isready'])
+    # legal move lists the generator does not produce by itself: a piece (not a pawn) moving two ranks beside an enemy pawn, a
+    # promotion that captures a rook on its corner, a stalemating move -- each followed by the commands that look at the position
+    rcf, outf, errf, _ = harness(['fens', '60'])
+    for l in outf.strip().split('\n'):
+        f = l.split('\t')
+        if len(f) == 5 and f[3] in ('movelist-2rank-beside-pawn', 'corner-promo', 'movelist-2rank') and ' moves ' in f[4]:
+            scripts.append([S.pos_cmd(f[4]), 'eval', 'perft 1', 'tperft 1', 'go depth 1', 'isready'])
     nscripts = len(scripts)
     model_raw = run_oracle(['SESS\t' + '\n'.join(s).encode('latin-1', 'replace').hex() for s in scripts])
     models = []
@@ -1754,13 +1803,17 @@ def c18(ctx):
     for j, r in zip(meta, S.lines_legal(req)):
         if r != -1:
             ctx.v.violation('illegal-move-at-capacity', {'fen': j.fen, 'go': j.go, 'lines': j.lines[-3:]}, signature=sig('c18l', j.fen, j.go))
+    # width: positions with 61..218 legal moves (per-ply move buffers), perft walks and searches
+    wide = wide_stream(ctx, 'w18')
+    wide.update(wide_search(ctx))
     deepest = 0
     for j in jobs:
         for l in (j.lines or []):
             m = re.match(r'info depth (\d+)', l)
             if m:
                 deepest = max(deepest, int(m.group(1)))
-    return {'evaluations': len(jobs) + len(long_rows), 'distinct_nontrivial': len(set((j.fen, j.go) for j in jobs)) + len(long_rows),
+    return {'evaluations': len(jobs) + len(long_rows) + wide['commands'] + wide['searches'], 'wide': wide,
+            'distinct_nontrivial': len(set((j.fen, j.go) for j in jobs)) + len(long_rows),
             'rule': 'stress inputs: FEN move numbers 1..15933 (both sides) with go/perft; blocked positions with go depth 38..100000, clock-based and bare go (iteration 40 is reached '
                     'in milliseconds); capture-heavy positions; games of several hundred plies through `position startpos moves ...` followed by go and perft; observable = process '
                     'alive, exactly one legal bestmove; non-trivial = distinct inputs',
@@ -1823,6 +1876,9 @@ def c19(ctx):
     # very long input lines (legal move lists of 1.2 and 3 MB, a junk line of 2 MB, also while a search runs), then quit / EOF
     shuffle_line = 'position startpos moves ' + ' '.join(['g1f3 g8f6 f3g1 f6g8'] * 60000)
     for end in ('quit', 'eof'):
+        # a GUI that skips the stop: a new position (and a go) arrive while the search is still running, then the session ends
+        trials.append(('position-while-searching', ['position startpos', 'go infinite', ('sleep', 0.3), 'position startpos moves e2e4 e7e5'], end, 0.0))
+        trials.append(('position-while-searching', ['position startpos', 'go depth 30', ('sleep', 0.2), 'position fen 4k3/8/8/8/8/8/8/4K2R w K - 0 1', 'isready'], end, 0.05))
         trials.append(('huge-line', [shuffle_line, 'isready'], end, 0.0))
         trials.append(('huge-line-while-searching', ['position startpos', 'go infinite', 'x' * 2000000, 'isready'], end, 0.0))
     trials.append(('huge-line', ['position startpos moves ' + ' '.join(['g1f3 g8f6 f3g1 f6g8'] * 150000)], 'quit', 0.0))
@@ -1841,7 +1897,11 @@ def c19(ctx):
                 # from a thread: an engine that stops reading must not block the check
                 try:
                     for l in pre:
-                        p.stdin.write((l + '\n').encode())
+                        if isinstance(l, tuple):
+                            p.stdin.flush()
+                            time.sleep(l[1])
+                        else:
+                            p.stdin.write((l + '\n').encode())
                     p.stdin.flush()
                     if delay:
                         time.sleep(delay)
@@ -1868,7 +1928,7 @@ def c19(ctx):
             if p.poll() is None:
                 p.kill()
                 p.wait()
-        pre = [l if len(l) < 300 else l[:120] + ' ... (%d bytes)' % len(l) for l in pre]
+        pre = [('sleep %.1f s' % l[1]) if isinstance(l, tuple) else (l if len(l) < 300 else l[:120] + ' ... (%d bytes)' % len(l)) for l in pre]
         samples.append({'state': state, 'script': pre, 'end': end, 'exit_code': rc, 'seconds': round(el, 3)})
         if rc is None or rc != 0:
             bad += 1
